@@ -43,6 +43,7 @@ CONSTANTS
   UnknownTargets,              \* TRUE: answers may name a session id the broker never saw
   MaxDebug,                    \* number of /debug requests a behaviour may contain
   DupSids,                     \* TRUE: a proxy poll may reuse the session id of an earlier poll
+  Rejects,                     \* TRUE: proxy polls whose accepted relay pattern the broker refuses occur
   Bridges,                     \* configured bridge list (subset of {"default", "b2"}); "unlisted" is never configured
   None
 
@@ -113,6 +114,16 @@ ProxyRegister(p, nat, load, sid) ==
 (* A proxy polls again with the session id of an earlier poll q (e.g. a retry
    after a network error) while q may still be pending. *)
 ProxyRepoll(p, nat, load, q) == DupSids /\ q # p /\ ppc[q] # "idle" /\ ProxyRegister(p, nat, load, psid[q])
+
+(* A poll whose accepted relay pattern is not a superset of the broker's allowed
+   pattern is refused at once ("incorrect relay pattern"): the proxy is never
+   registered and the matching state is not touched (ipc.go ProxyPolls, before
+   RequestOffer).  Later requests are served as if it had not happened. *)
+ProxyRejected(p) ==
+  /\ Rejects /\ ppc[p] = "idle"
+  /\ ppc' = [ppc EXCEPT ![p] = "done"]
+  /\ presp' = [presp EXCEPT ![p] = [kind |-> "rejected"]]
+  /\ UNCHANGED <<attrs, wpc, cpc, apc, heapU, heapR, idmap, gauge, woffer, claimed, asnow, abuf, ptimer, ctimer, cresp, aresp>>
 
 Popped(p) == p \notin heapU /\ p \notin heapR
 
@@ -275,7 +286,7 @@ Tick ==
   /\ ctimer' = [c \in Clients |-> IF ctimer[c] > 0 THEN ctimer[c] - 1 ELSE ctimer[c]]
   /\ UNCHANGED <<attrs, ppc, wpc, cpc, apc, heapU, heapR, idmap, gauge, woffer, claimed, asnow, abuf, presp, cresp, aresp>>
 
-AllDone == /\ \A p \in Proxies : ppc[p] = "done" /\ wpc[p] = "done"
+AllDone == /\ \A p \in Proxies : ppc[p] = "done" /\ wpc[p] \in {"done", "none"}
            /\ \A c \in Clients : cpc[c] = "done"
            /\ \A a \in Answers : apc[a] = "done"
 Finished == AllDone /\ UNCHANGED vars
@@ -290,6 +301,7 @@ Targets == Proxies \cup (IF UnknownTargets THEN {"unknownSid"} ELSE {})
 Arrival ==
   \/ \E p \in Proxies, nat \in PNatSet, load \in Loads : ProxyRegister(p, nat, load, p)
   \/ \E p \in Proxies, nat \in PNatSet, load \in Loads, q \in Proxies : ProxyRepoll(p, nat, load, q)
+  \/ \E p \in Proxies : ProxyRejected(p)
   \/ \E c \in Clients, nat \in CNatSet, fp \in FpSet : ClientMatch(c, nat, fp)
   \/ \E a \in Answers, t \in Targets : AnswerLookup(a, t)
   \/ DebugPoll
@@ -341,7 +353,7 @@ MatchRight ==
 
 (* C04 *)
 (* every request that has arrived has completed *)
-Quiet == /\ \A p \in Proxies : (ppc[p] = "done" /\ wpc[p] = "done") \/ (ppc[p] = "idle" /\ wpc[p] = "none")
+Quiet == /\ \A p \in Proxies : (ppc[p] = "done" /\ wpc[p] \in {"done", "none"}) \/ (ppc[p] = "idle" /\ wpc[p] = "none")
          /\ \A c \in Clients : cpc[c] \in {"idle", "done"}
          /\ \A a \in Answers : apc[a] \in {"idle", "done"}
 NoGhost == Quiet => (idmap = {} /\ heapU = {} /\ heapR = {} /\ gauge = 0)
